@@ -64,6 +64,14 @@ def _strategy(maxW: int):
                 st_ = draw(gen.st_step(npar, cfg["gscale"], edits=False, allow_absent=False))
                 st_["mask"] = [True] + [draw(st.booleans()) for _ in range(npar - 1)]
                 steps.append(st_)
+        if draw(st.sampled_from([False] * 5 + [True])):
+            # class "many parameters, few rows": 9-14 parameters whose leading dimension is smaller than the shard count, so that most ranks hold
+            # no rows of most parameters (the lists of non-empty local shards differ from rank to rank and have gaps)
+            npar = draw(st.integers(9, 14))
+            tail = draw(st.sampled_from([[4], [3], [2, 2], []]))
+            shapes = [[draw(st.sampled_from([1, 1, 2, S, S + 1]))] + list(tail) for _ in range(npar)]
+            cfg["mpd"] = max(cfg["mpd"], 4)
+            steps = [draw(gen.st_step(npar, cfg["gscale"], edits=False)) for _ in range(T)]
         dc.st_param_edits(draw, steps, len(shapes))
         return dc.st_exponent_range_class(draw, {"flavour": fl, "R": R, "S": S, "G": G, "comm_params": draw(st.booleans()), "comm_dtype": draw(st.sampled_from(["default", "fp32", "fp16", "bf16"])),
                 "cfg": cfg, "shapes": shapes, "pseed": draw(st.integers(0, 10**5)), "steps": steps, "repair": True,
